@@ -145,6 +145,12 @@ func init() {
 		"internal/abi.NoEscape": func(e *Engine, a []Value) Value { return a[0] },
 		"internal/bytealg.MakeNoZero": func(e *Engine, a []Value) Value {
 			n := e.concInt(a[0])
+			if n < 0 || n > 1<<47 {
+				e.goPanicStr("makeslice: len out of range")
+			}
+			if n > 1<<24 {
+				panic(pathEnd{"unsupported", "huge allocation"})
+			}
 			arr := make([]Value, n)
 			for i := range arr {
 				arr[i] = mkInt(8, 0)
